@@ -59,7 +59,7 @@ var fuzzSchemas = []ps.Schema{
 		rp(70000, ps.KUint64), rp(1<<29-1, ps.KString), sc(16, ps.KBool)}}}},
 	// 4: nested messages by value, by pointer, repeated, two levels
 	{Msgs: []ps.Message{
-		{Fields: []ps.Field{mg(1, 1, false, false), mg(2, 1, true, false), mg(3, 1, false, true), mg(4, 1, true, true), sc(5, ps.KInt64)}},
+		{Pad: []int{1, 0, 1, 0, 0, 2}, Fields: []ps.Field{mg(1, 1, false, false), mg(2, 1, true, false), mg(3, 1, false, true), mg(4, 1, true, true), sc(5, ps.KInt64)}},
 		{Fields: []ps.Field{sc(1, ps.KInt64), sc(2, ps.KString), mg(3, 2, false, false), mg(4, 2, true, false)}},
 		{Fields: []ps.Field{sc(1, ps.KBool), rp(2, ps.KInt32), sc(3, ps.KBytes)}},
 	}},
@@ -75,6 +75,12 @@ var fuzzSchemas = []ps.Schema{
 	{Msgs: []ps.Message{
 		{Fields: []ps.Field{im(1, 1, "pm", false, false), im(2, 1, "pm", true, false), im(3, 1, "pm", false, true), im(4, 1, "cm", true, true),
 			mm(5, ps.KString, 1, false, "cm"), mm(6, ps.KInt64, 1, true, "pm"), im(7, 1, "cm", false, false), im(8, 1, "cm", true, false), sc(9, ps.KInt64)}},
+		ps.ImplMessage(),
+	}},
+	// 11: the same types carrying a ProtoMessage() marker (proto.Message implementer: still self-encoding; custom type: plain struct) and unexported Go fields around them
+	{Msgs: []ps.Message{
+		{Pad: []int{1, 0, 2, 0, 0, 1, 0, 0, 1}, Fields: []ps.Field{im(1, 1, "pmpm", false, false), im(2, 1, "pmpm", true, false), im(3, 1, "pmpm", false, true), im(4, 1, "cmpm", true, true),
+			mm(5, ps.KString, 1, false, "cmpm"), mm(6, ps.KInt64, 1, true, "pmpm"), im(7, 1, "cmpm", false, false), im(8, 1, "cmpm", true, false)}},
 		ps.ImplMessage(),
 	}},
 	// 8: inlined single-pointer / single-map chain
